@@ -17,9 +17,14 @@ import (
 type checkSchema struct {
 	rootSchema *ischema.ISchema
 
-	// foundTypeNames the names of the type encountered during checking. Are used
-	// to control recursion.
+	// foundTypeNames the names of the types being followed right now (the path
+	// from the checked node to the current type). Are used to control recursion.
 	foundTypeNames map[string]struct{}
+
+	// resolvedTypeNames the names of the types that were followed to the end:
+	// meeting one again (two alternatives of an "or" referring to the same type)
+	// is no recursion and adds nothing.
+	resolvedTypeNames map[string]struct{}
 
 	// allowedJsonTypes the list of available json-types from types.
 	allowedJsonTypes map[json.Type]struct{}
@@ -27,9 +32,10 @@ type checkSchema struct {
 
 func CheckRootSchema(rootSchema *ischema.ISchema) {
 	c := checkSchema{
-		rootSchema:       rootSchema,
-		foundTypeNames:   make(map[string]struct{}, 10),
-		allowedJsonTypes: make(map[json.Type]struct{}, 10),
+		rootSchema:        rootSchema,
+		foundTypeNames:    make(map[string]struct{}, 10),
+		resolvedTypeNames: make(map[string]struct{}, 10),
+		allowedJsonTypes:  make(map[json.Type]struct{}, 10),
 	}
 
 	if rootSchema.RootNode() != nil { // the root schema may contain no nodes
@@ -199,6 +205,9 @@ func (c *checkSchema) checkLinksOfNode(node ischema.Node, ss map[string]ischema.
 	for k := range c.foundTypeNames {
 		delete(c.foundTypeNames, k)
 	}
+	for k := range c.resolvedTypeNames {
+		delete(c.resolvedTypeNames, k)
+	}
 	for k := range c.allowedJsonTypes {
 		delete(c.allowedJsonTypes, k)
 	}
@@ -306,13 +315,21 @@ func (c *checkSchema) collectAllowedJsonTypes(node ischema.Node, ss map[string]i
 		// An unnamed type (an inline rule-set of an "or") is only reachable from the
 		// node it is written on, so every cycle passes through a named type; the
 		// generated name is a heap address and must not end up in the message.
-		if !strings.HasPrefix(typeName, "#") {
+		named := !strings.HasPrefix(typeName, "#")
+		if named {
+			if _, ok := c.resolvedTypeNames[typeName]; ok {
+				continue
+			}
 			if _, ok := c.foundTypeNames[typeName]; ok {
 				panic(errs.ErrImpossibleToDetermineTheJsonTypeDueToRecursion.F(typeName))
 			}
 			c.foundTypeNames[typeName] = struct{}{}
 		}
 		c.collectAllowedJsonTypes(getType(typeName, c.rootSchema, ss).RootNode(), ss) // can panic
+		if named {
+			delete(c.foundTypeNames, typeName)
+			c.resolvedTypeNames[typeName] = struct{}{}
+		}
 	}
 }
 
